@@ -18,7 +18,7 @@ theorem Core.setAF {s : State} {r : Id} {up : List Id} {ph : Phase} (hc : Core s
     (ha : AFok s.dom af) (hx : Afx s.dom af r) : Core { s with activeFormatting := af } r up ph := by
   have hl : Late { s with activeFormatting := af } := hc.late.free rfl rfl rfl rfl rfl rfl rfl rfl rfl
   exact ⟨hl, hc.stack, hc.rdoc, hc.nodup, hc.tg, ha, hc.tc, hc.tmm, hc.form, hc.rtu, hc.rnd, hc.kids, hc.elems, hc.bh,
-    hx⟩
+    hx, hc.adj⟩
 
 theorem Base.notPf {d : Dom} {head : Option Id} {up : List Id} {ph : Phase} (h : Base d head up ph) : ¬ ph.isPf := by
   rcases h with h | ⟨_, _, _, rfl⟩ | ⟨_, rfl⟩
@@ -166,7 +166,8 @@ theorem Core.setTM {s : State} {r : Id} {up : List Id} {ph : Phase} (hc : Core s
     Core { s with templateModes := tm } r up ph :=
   ⟨⟨hc.late.base, hc.late.pat, ⟨hc.late.st.doc, hc.late.st.ctx, hc.late.st.oe, hc.late.st.tail, hc.late.st.head,
       hc.late.st.ptt⟩, ⟨hc.late.ml.mode, hc.late.ml.orig, fun m hm => isLate_of_tmplModeOk (htm m hm)⟩⟩,
-    hc.stack, hc.rdoc, hc.nodup, hc.tg, hc.afn, htc, htm, hc.form, hc.rtu, hc.rnd, hc.kids, hc.elems, hc.bh, hc.afx⟩
+    hc.stack, hc.rdoc, hc.nodup, hc.tg, hc.afn, htc, htm, hc.form, hc.rtu, hc.rnd, hc.kids, hc.elems, hc.bh, hc.afx,
+    hc.adj⟩
 
 theorem Base.qs {s s' : State} {r : Id} {up : List Id} {ph : Phase} (hc : Core s r up ph)
     (hb : Base s.dom s.headElem up ph) (q : QS s s') : Base s'.dom s'.headElem up ph := by
@@ -411,8 +412,12 @@ theorem shadow_sem {tag : Tag} {host : Id} {s s' : State} {r : Id} {up : List Id
       rcases List.mem_cons.mp hx with rfl | hx
       · rw [nm_chg hchg2 (hc1.late.st.oe x hc1.root_mem), q1.nm]
       · exact hsn2 x hx
+  obtain ⟨_, _, hkids2, _, htcc2, _⟩ := createElement_adj hc1.late hc1.adj e5
+  have hadj3 : AdjD s2.dom (s2.openElems ++ [el]) := by
+    have h' : AdjD s2.dom (s2.openElems ++ []) := by rw [List.append_nil]; exact hc2.adj
+    exact h'.stackInsert_isolated hnk2 hkids2 (fun tc h => (htcc2 tc h).1)
   have hc3 : Core { s2 with openElems := s2.openElems ++ [el] } r (up ++ [el]) ph :=
-    hc2.pushG ⟨hel2, hnk2 0⟩ hfresh (by rw [hnm2']; exact pushOk_template htc2)
+    hc2.pushG ⟨hel2, hnk2 0⟩ hfresh (by rw [hnm2']; exact pushOk_template htc2) hadj3
   obtain ⟨b, s4, e11, e12⟩ := bind_ok.mp e2
   have q4 : QS _ s4 := qs_sink (sinkBool_ok.mp e11)
   have hc4 := hc3.qs q4
